@@ -37,10 +37,12 @@ POWERS = ([["int", n] for n in range(-3, 4)] +
 @st.composite
 def binop_case(draw):
     op = draw(st.sampled_from(["+", "-", "*", "/"]))
-    d1 = draw(st.sampled_from(G.DIMS))
-    u = draw(G.expr_of_dim(d1))
     rel = draw(st.sampled_from(["same_unit", "same_dim", "same_dim", "other_dim", "recip_dim", "shared_atoms", "shared_atoms",
                                 "number_right", "number_left"]))
+    d1 = draw(st.sampled_from(G.DIMS))
+    if rel.startswith("number") and op in "+-" and draw(st.integers(0, 3)) > 0:
+        d1 = R.ZERO          # a plain number can only be added to a dimensionless quantity (%, ppth, ratios ...)
+    u = draw(G.expr_of_dim(d1))
     if rel == "shared_atoms":
         u, sv = draw(G.shared_atoms_pair())
     if rel == "recip_dim" and d1 == R.ZERO:
